@@ -9,6 +9,7 @@ import Bita.Proofs.Schedule
 import Bita.Proofs.CliRoundtrip
 import Bita.Proofs.CliRoundtripExamples
 import Bita.Proofs.ReaderEnv
+import Bita.Proofs.Options
 
 namespace Bita.Props.C01
 open Bita Bita.Spec Bita.Proofs
@@ -167,5 +168,16 @@ example :
 /-- The library writer flushes its temp file before reading it back (read from api/compress.rs on
 every run; F16 repair), as the command line writer does (`Gen.cliTempFlushedBeforeReturn`). -/
 theorem lib_temp_file_flushed_fact : Gen.libTempFlushedBeforeRewind = true := by decide
+
+
+/-- **"Any valid parameters", from the command line.**  The hypothesis `OptsOK` of the theorems above
+is not a wish: for every `bita compress` command line that the option parser (src/cli.rs, modelled
+in `Bita.Model.Options` and tied by the in-process suite `l1 opts`) accepts, it holds iff the
+configuration is outside an exactly characterised misuse set (zero window, BuzHash window above the
+maximum chunk size, a target average of 2 or 3, fixed size 0 - none of which any chunker can run). -/
+theorem cli_accepted_options_are_valid (a : Options.CompressArgs) (p : Options.CompressParsed)
+    (h : Options.parseCompress a = .ok p) :
+    OptsOK p.cmd.opts ↔ Proofs.NotMisuse p.cmd.opts.cfg :=
+  Proofs.cli_options_ok_iff a p h
 
 end Bita.Props.C01
